@@ -6,8 +6,8 @@ from ..findings import still_fails
 
 ID = "C19"
 LEAN_MODULES = ["PycModel.Properties.C19"]
-NAMESPACES = ["PycModel.C19"]
-REQUIRED_THEOREMS = ["PycModel.C19.impl_shape", "PycModel.C19.impl_single_headers"]
+NAMESPACES = ["PycModel.C19", "PycModel.Cpp"]
+REQUIRED_THEOREMS = ["PycModel.C19.impl_shape", "PycModel.C19.impl_single_headers", "PycModel.C19.impl_guarded_bodies", "PycModel.C19.impl_bodies", "PycModel.C19.any_header_list", "PycModel.C19.any_header_list_length", "PycModel.Cpp.pp_nodup_bodies"]
 LEVEL = "proof"
 TRUSTED = ["partial: cpp, the OS process and the file system are exercised, not modelled; Cpp.lean models include/guard expansion on the regenerated header tree and is compared with the real cpp on header lists"]
 ASSUMPTIONS = ["tools/extract.py's reading of each header (guard, includes, own content) is regenerated on every run"]
